@@ -56,7 +56,7 @@ def run(chk):
     maxn = 3 if chk.tier == 'quick' else 4
     chk.rule = ('flat: every ordered pair, triple%s of the 19 binary operators over distinct operands (exhaustive), through Parser::expression and through parse_source; '
                 'the Lean kernel `climb` (driver mode climb), the parser model and the implementation must all give specTree.  unary: every unary operator in every operand slot of every binary operator; '
-                'every unary operator before every postfix form.  operands: every ordered pair of binary operators over operands of every lexical kind (identifiers, numbers, runes, strings and raw strings with multi-byte text, postfix forms) written without blanks where the tokenisation allows.  parens: redundant and needed parentheses.  random mixtures to 10 operators.  non-trivial: >= 2 operators; distinct by text.' % (', quadruple' if maxn == 4 else ''))
+                'every unary operator before every postfix form.  operands: every ordered pair of binary operators over operands of every lexical kind (identifiers, numbers, runes, strings and raw strings with multi-byte text, postfix forms) written without blanks where the tokenisation allows.  positions: every ordered pair (and a sample of triples) of binary operators as the array length of a type declaration and of a variable type, as call argument, index and case expression.  parens: redundant and needed parentheses.  random mixtures to 10 operators.  non-trivial: >= 2 operators; distinct by text.' % (', quadruple' if maxn == 4 else ''))
     flat = []
     for n in range(1, maxn + 1):
         for ops in itertools.product(BIN, repeat=n):
@@ -151,6 +151,35 @@ def run(chk):
         if got != e:
             chk.oracle_fail('grouping-operands', m, s, got, e, 'grouping differs from the spec precedence / associativity when the operands are literals or postfix forms written without blanks')
     chk.count('operands', ocases, [s for m, s in ocases])
+    # other expression positions that have their own code paths: the array length of a type declaration (decided
+    # against a type-parameter list by re-reading the tokens), array lengths elsewhere, call arguments, index, case
+    def at(path):
+        def f(v):
+            for k in path: v = v[k]
+            return v
+        return f
+    CTX = [('package p; type T [%s]bool', at(['decl', 0, 'Type', 'specs', 0, 'typ', 'TypeArray', 'len'])),
+           ('package p; var v [%s]bool', at(['decl', 0, 'Variable', 'specs', 0, 'typ', 'TypeArray', 'len'])),
+           ('package p; var v = f(%s)', at(['decl', 0, 'Variable', 'specs', 0, 'values', 0, 'Call', 'args', 0])),
+           ('package p; var v = m[%s]', at(['decl', 0, 'Variable', 'specs', 0, 'values', 0, 'Index', 'index'])),
+           ('package p; func f() { switch { case %s: } }', at(['decl', 0, 'Function', 'body', 'list', 0, 'Switch', 'block', 'body', 0, 'list', 0]))]
+    xc, xe, xg = [], [], []
+    for n in (2, 3):
+        tuples = list(itertools.product(BIN, repeat=n))
+        if n == 3 and chk.tier == 'quick': tuples = rng.sample(tuples, 1500)
+        for ops in tuples:
+            atoms = list(NAMES[:n + 1])
+            txt = ' '.join(x for pair in zip(atoms, list(ops) + ['']) for x in pair if x)
+            for tmpl, get in (CTX if n == 2 else CTX[:2]):
+                xc.append(('file', tmpl % txt)); xe.append(spec_tree(atoms, list(ops))); xg.append(get)
+    a, b = run_both(chk, 'positions', xc)
+    for (m, s_), e, get, line in zip(xc, xe, xg, a):
+        k, v = outcome(line)
+        try: got = shape(get(v)) if k == 'ok' else None
+        except Exception: got = 'other shape'
+        if got != e:
+            chk.oracle_fail('grouping-position', m, s_, got, e, 'grouping differs from the spec precedence / associativity in this expression position')
+    chk.count('positions', xc, [s_ for m, s_ in xc])
     # parentheses
     pcases, pexp = [], []
     for o1 in BIN:
@@ -173,5 +202,5 @@ def run(chk):
     chk.count('parens', pcases, [s for m, s in pcases])
     for (m, s), e in list(zip(ucases, uexp))[:2] + [(('expr', texts[400]), exp[400]), (('expr', texts[-1]), exp[-1])]:
         chk.sample({'mode': m, 'input': s, 'expected_grouping': e})
-    chk.programs = 2 * len(texts) + len(kc) + len(ucases) + len(pcases) + len(ocases)
+    chk.programs = 2 * len(texts) + len(kc) + len(ucases) + len(pcases) + len(ocases) + len(xc)
     chk.disagreements_checked = chk.programs
